@@ -201,6 +201,8 @@ def child(case):
 
     async def run(loop, dbdir):
         env_extra = {'REORG_LIMIT': 5, 'PEER_DISCOVERY': case['discovery'], 'PEER_ANNOUNCE': '', 'MAX_SEND': case.get('max_send', 1000000)}
+        if case.get('drop_client'):
+            env_extra['DROP_CLIENT'] = case['drop_client']       # rarely used setting: the client name is matched against a pattern
         srv = harness.Server(w, dbdir, env_extra=env_extra, txindex=True).start()
         if not await srv.wait_listening(600):
             out['inconclusive'].append(f'server did not start: {srv.check_task()}')
@@ -235,6 +237,11 @@ def child(case):
                 bump('sessions_opened')
             method = methods[(i + case['seed']) % len(methods)] if rng.random() < 0.8 else rng.choice(methods)
             params = gen_request(rng, method, METHODS[method], pg, pp, w, orc)
+            if method == 'server.version' and rng.random() < 0.6:
+                # server.version is only looked at once per session: send the hostile one as the first message of a new session
+                client = new_client(None)
+                bump('sessions_opened')
+                bump('hostile_version_as_first_message')
             if method == 'server.add_peer':
                 # as if the ten-minute add_peer rate limit had been waited out (it is keyed on wall-clock time)
                 sm.peer_mgr.recent_peer_adds.clear()
@@ -360,7 +367,8 @@ def child(case):
 def run(tier, seed, replay=None):
     rep = Report(PID, tier, seed, 'exploration')
     per = 470 if tier == 'quick' else 16000
-    cases = [{'seed': seed * 4099 + i, 'wseed': 77 + (i % 4), 'n': per, 'discovery': 'on' if i % 2 else 'off', 'sample': i < 2}
+    cases = [{'seed': seed * 4099 + i, 'wseed': 77 + (i % 4), 'n': per, 'discovery': 'on' if i % 2 else 'off', 'sample': i < 2,
+              'drop_client': ('evil.*', None, None, r'.*(bad|0\.0)')[i % 4]}
              for i in range(32 if tier == 'quick' else 64)]
     rep.absorb(run_cases(child, cases, watchdog=1500), 'fuzz batch')
     c = rep.counters
